@@ -59,6 +59,8 @@ def render_check(rep, mod, fname, signed, ret_at_end, alphabets):
         if i.id in dstores:
             r = st.env.get(('i', rem.id))
             rl = (st.as_u(r) if st.as_u(r) is not None else st.as_s(r)) if isinstance(r, IntVal) else None
+            if rl is not None and rem.op == 'srem' and st.cons.entails_le(rl, 0):
+                rl = -rl        # signed form: on this path the remainder is <= 0 and the digit is its magnitude
             vl = st.force_u(v) if isinstance(v, IntVal) else None
             if rl is None or vl is None:
                 sink.inst('R-DIGITCHAR', fname, 'digit character is a function of the remainder', False, w,
@@ -132,6 +134,14 @@ def render_check(rep, mod, fname, signed, ret_at_end, alphabets):
                   'unexpected store of %r at offset %r' % (v, p.off))
 
     it.store_hook = store_hook
+
+    def room_hook(interp, st, inst, p, size, kind):
+        # the caller's text buffer is an object of fewer than 2^31 bytes and large enough for the text (C07 does not state a
+        # size): an access at offset o therefore tells o + size <= 2^31, which is what keeps a 32-bit index from wrapping
+        if isinstance(p, PtrVal) and p.obj == buf.get('id') and not st.bottom:
+            st.cons.add_le(0, p.off)
+            st.cons.add_le(p.off + size, 1 << 31)
+    it.access_hook = room_hook
 
     def base_hook(interp, st, i, fn):
         if interp.recording > 0:
@@ -658,7 +668,8 @@ def run(rep, repo, tier):
         'exact dataflow, decimal buffer size against the digit count of 2^64-1. Letters emitted by every renderer are '
         'letters the parser maps back to the same digit. Not decided: the numeric value of a parse (non-linear), digit '
         'count bounds for caller buffers, overflow behaviour of the parsers.')
-    rep.assumptions += ['2 <= base <= 36 for the parsers', 'little-endian target for the byte-lane rules',
+    rep.assumptions += ['the text buffer handed to a renderer is large enough and smaller than 2^31 bytes (so a 32-bit index into it does not wrap)',
+                        '2 <= base <= 36 for the parsers', 'little-endian target for the byte-lane rules',
                         'C locale for isspace/isdigit in atol (glibc table bits _ISdigit/_ISspace)',
                         'input strings are NUL terminated']
     # file-local helpers a refactoring may introduce (e.g. a shared digit-reversal routine) are folded into their callers
@@ -670,9 +681,9 @@ def run(rep, repo, tier):
     for (m, cores, at_end) in ((mod, IGRIS_CORES, True), (modl, LIBC_CORES, False)):
         for (fname, signed) in cores:
             f = need(m, fname)
-            skeleton_rule(rep, f, fname, 0, ('arg', 2))
+            D = skeleton_rule(rep, f, fname, 0, ('arg', 2))
             if signed:
-                neg_rule(rep, f, fname)
+                neg_rule(rep, f, fname, expect=not D.get('signed_form'))
             render_check(rep, m, fname, signed, at_end, alphabets)
     for (w, core) in TOA_WRAPPERS:
         forward_rule(rep, 'R-WRAPPER', need(mod, w), w, core, [('arg', 0), ('arg', 1), ('arg', 2)], 'same')
